@@ -275,26 +275,30 @@ theorem inv_step {s t : State} (I : Inv s) (h : Step s t) : Inv t := by
   | updNotify todo ho =>
     exact inv_frame I rfl rfl (by simp) (fun i h => by show isFin (s.ws.map wakeAll) i = true; rw [isFin_wake]; exact h)
       (fun h => by cases h) (fun _ h => by cases h) (fun h => ⟨h, id⟩)
-  | updReap todo ho =>
+  | reapYes i rem todo ho hf =>
     refine ⟨?_, ?_, ?_, ?_, ?_, ?_, ?_, fun _ h => by cases h⟩
     · exact Nat.le_trans (List.length_filter_le _ _) I.len
     · exact I.nodup.filter _
-    · intro i hi; exact I.valid i (List.mem_filter.1 hi).1
+    · intro j hj; exact I.valid j (List.mem_filter.1 hj).1
     · intro w hw hn
       by_cases hin : w ∈ s.pool
-      · have hn : w ∉ s.pool.filter (notFin s.ws) := hn
+      · have hn : w ∉ s.pool.filter (isNot i) := hn
         rw [List.mem_filter] at hn
-        cases hfw : isFin s.ws w with
-        | true => rfl
-        | false => exact absurd ⟨hin, by unfold notFin; rw [hfw]; rfl⟩ hn
+        by_cases hwi : w = i
+        · rw [hwi]; exact hf
+        · exact absurd ⟨hin, by unfold isNot; simpa using hwi⟩ hn
       · exact I.outside w hw hin
     · intro rem' todo' ho'; cases ho'
     · intro todo' ho'; cases ho'
     · intro hst
       obtain ⟨h1, h2⟩ := I.stopped_ok hst
       refine ⟨?_, h2⟩
-      show s.pool.filter (notFin s.ws) = []
+      show s.pool.filter (isNot i) = []
       rw [h1]; rfl
+  | reapNo i rem todo ho hf =>
+    exact inv_frame I rfl rfl rfl (fun _ h => h) (fun h => by cases h) (fun _ h => by cases h) (fun h => ⟨h, id⟩)
+  | reapDone todo ho =>
+    exact inv_frame I rfl rfl rfl (fun _ h => h) (fun h => by cases h) (fun _ h => by cases h) (fun h => ⟨h, id⟩)
   | tick d todo ho =>
     exact inv_frame I rfl rfl rfl (fun _ h => h) (fun h => by cases h) (fun _ h => by cases h) (fun h => ⟨h, id⟩)
   | workerExit w wk hw ha hr => exact inv_worker I hw (awake_ne_fin ha) rfl rfl rfl rfl rfl id
@@ -346,7 +350,7 @@ def hands (ws : List Wk) : List Task := ws.filterMap Wk.task?
 def rans (ws : List Wk) : List Task := ws.filterMap Wk.ran?
 
 def Owner.todo : Owner → List OwnerOp
-  | .idle l | .spawn l | .notifyOne l | .stopNotify l | .join _ l | .clearQ l | .updNotify l | .updReap l => l
+  | .idle l | .spawn l | .notifyOne l | .stopNotify l | .join _ l | .clearQ l | .updNotify l | .updReap _ l => l
 
 def tasksOf : List OwnerOp → List Task
   | [] => []
@@ -481,7 +485,9 @@ theorem tinv_step {s t : State} (T : TInv s) (h : Step s t) : TInv t := by
   | updBegin todo T' ho ht => exact tinv_quiet T rfl rfl rfl rfl (by rw [ho]; rfl) rfl rfl rfl rfl
   | updNotify todo ho =>
     exact tinv_quiet T rfl (filterMap_wake task?_wake _) (filterMap_wake ran?_wake _) rfl (by rw [ho]; rfl) rfl rfl rfl rfl
-  | updReap todo ho => exact tinv_quiet T rfl rfl rfl rfl (by rw [ho]; rfl) rfl rfl rfl rfl
+  | reapYes i rem todo ho hf => exact tinv_quiet T rfl rfl rfl rfl (by rw [ho]; rfl) rfl rfl rfl rfl
+  | reapNo i rem todo ho hf => exact tinv_quiet T rfl rfl rfl rfl (by rw [ho]; rfl) rfl rfl rfl rfl
+  | reapDone todo ho => exact tinv_quiet T rfl rfl rfl rfl (by rw [ho]; rfl) rfl rfl rfl rfl
   | tick d todo ho => exact tinv_quiet T rfl rfl rfl rfl (by rw [ho]; rfl) rfl rfl rfl rfl
   | workerExit w wk hw ha hr =>
     exact tinv_idle_worker T hw (awake_task_none ha) rfl (awake_ran_none ha) rfl rfl rfl rfl rfl rfl rfl rfl rfl
@@ -661,7 +667,12 @@ theorem ownerStep?_sound {s t : State} {wk : Option Nat} (h : ownerStep? s wk = 
   · rename_i todo ho; cases h; exact Step.joinDone s todo ho
   · rename_i todo ho; cases h; exact Step.stopClear s todo ho
   · rename_i todo ho; cases h; exact Step.updNotify s todo ho
-  · rename_i todo ho; cases h; exact Step.updReap s todo ho
+  · rename_i i rem todo ho
+    split at h
+    · rename_i hf; cases h; exact Step.reapYes s i rem todo ho hf
+    · rename_i hf; cases h
+      exact Step.reapNo s i rem todo ho (by cases hs : isFin s.ws i with | false => rfl | true => exact absurd hs hf)
+  · rename_i todo ho; cases h; exact Step.reapDone s todo ho
   · cases h
 
 theorem workerStep?_sound {s t : State} {w : Nat} (h : workerStep? s w = some t) : Step s t := by
